@@ -55,7 +55,35 @@ def _space(tier):
             )
 
 
+# configuration the library reads from the environment at import time: a narrow wrap width and a two-space tab (child interpreters)
+ENVS = [{"DOCTRANS_LINE_LENGTH": "40"}, {"DOCTRANS_LINE_LENGTH": "72", "DOCTRANS_TAB": "  "}]
+ENV_BLOCK = 60
+
+
+def _env_space(tier):
+    """the sub-space run again under each environment: I(1) over the full alphabet (one return kind, one header) and I(2) over the collision alphabet"""
+    full, small = _alphabets(tier)
+    yield from A.ir_space(full, small, 2, returns_1=A.RETURNS[1:2], returns_n=A.RETURNS[:1], headers=A.HEADERS[:1], alt_names=())
+
+
+def _wrap_sweep_space(tier):
+    """descriptions of every length across the wrap column (default width 100): where the line breaks relative to the default text, the
+    type and the full stop depends on nothing but that length"""
+    defaults = [("str", "a b"), ("str", 'say "hi"'), ("str", "it's a b"), ("int", 5), ("Optional[str]", A.NoneStr), ("List[str]", "```['a', 'b']```")]
+    for n in range(56, 101) if tier == "quick" else range(30, 131):
+        words = ("word " * 40)[: n - 1].rstrip() + "x"
+        for typ, dv in defaults:
+            p = A.make_param(typ, "set", dv, "sweep", words)
+            yield dict(kinds=[[typ, "sweep", "len%d" % n]], ret="ret", hdr="one", names=["alpha"], sweep=n), A.mk_ir([("alpha", p)], A.RETURNS[1][1])
+
+
 def cases(tier, seed):
+    for key, ir in _wrap_sweep_space(tier):
+        yield dict(key=key, ir=_jsonable(ir))
+    n_env = sum(1 for _ in _env_space(tier))
+    for ei in range(len(ENVS)):
+        for lo in range(0, n_env, ENV_BLOCK):
+            yield dict(kind="env_block", env=ei, lo=lo, hi=lo + ENV_BLOCK)
     for key, ir in _space(tier):
         yield dict(key=key, ir=_jsonable(ir))
 
@@ -161,6 +189,13 @@ def in_domain(ir, cfg):
 
 
 def run(case):
+    from mc import core
+
+    if case.get("kind") == "env_block":
+        sub = [dict(key=key, ir=_jsonable(ir)) for key, ir in itertools.islice(_env_space("quick"), case["lo"], case["hi"])]
+        return core.run_env_block("mc.checks.c01", sub, ENVS[case["env"]], case["env"])
+    if "env" in case and "ir" in case:
+        return core.run_env_case("mc.checks.c01", case, ENVS)
     ir = _from_jsonable(case["ir"])
     cfgs = [case["cfg"]] if "cfg" in case else CONFIGS
     viol, n, outcomes = [], 0, set()
